@@ -177,7 +177,7 @@ type Report struct {
 	NOracleFail   int            `json:"n_oracle_fails"`
 	FailsBySite   map[string]int `json:"fails_by_site"`
 	keptByClass   map[string]int
-	Notes         []string       `json:"notes,omitempty"`
+	Notes         []string `json:"notes,omitempty"`
 	mu            sync.Mutex
 }
 
